@@ -96,6 +96,15 @@ Definition ECT_ReconcileError : ctype := 5%N.
 Definition ECT_CanaryPaused : ctype := 13%N.
 Definition ECT_CanaryFailed : ctype := 14%N.
 
+(** Condition messages: fixed numbers for the constant texts, [M_OTHER] for any other non-empty text
+    (node lists, pod names: not predicted, only "non-empty"). *)
+Definition M_EMPTY : name := 0%N.
+Definition M_FULL_SYNC : name := 1%N.        (* "full sync" *)
+Definition M_PODS_CREATED : name := 2%N.     (* "pods created" *)
+Definition M_PODS_DELETED : name := 3%N.     (* "pods deleted" *)
+Definition M_NOT_DEFAULTED : name := 4%N.    (* "Parent ExtendedDaemonSet is not defaulted, requeuing" *)
+Definition M_OTHER : name := 999%N.
+
 Record cond := MkCond {
   c_type : ctype;
   c_status : cstatus;
